@@ -80,6 +80,15 @@ CLAIMS = {
          "TLC certifies symmetry, zero-iff-incident, foot realises the distance, clamping minimality, antisymmetry and isometry "
          "invariance; geometer is replayed in both argument orders, singles and collections.",
     design="5/C09", technique="TLC lattice enumeration with an exact rational metric oracle + replay"),
+ "C16": dict(
+    text="C16_Membership.tla enumerates every simple polygon with 3 and 4 vertices on a grid as an ordered vertex list (all cyclic "
+         "starts, both directions, convex and non-convex) and every query point of the surrounding grid, half-grid points and "
+         "points at infinity, labelled by the spec (vertex, edge, edge extension, level with a vertex, interior, exterior), the same "
+         "polygons under five integer embeddings into 3-space (incl. a plane far from the origin crossing z=0) with off-plane "
+         "queries, and segments/rays in 2D/3D; membership is declarative (boundary or winding number; p = a + x(b-a)), certified "
+         "against crossing parity, barycentric coordinates and cycle invariance; Polygon/Triangle/Rectangle/PolygonCollection/"
+         "Segment.contains are replayed through the single-point and the collection code paths.",
+    design="5/C16", technique="TLC exhaustive enumeration of grid polygons x query points with a winding-number oracle + replay"),
 }
 
 checks = []
